@@ -340,6 +340,12 @@ def cond_case(draw, tier):
             unheld_any |= not held
             ops.append(op(draw(st.sampled_from(["csignal", "csignal", "cbcast"])), held))
         fibers.append(ops)
+    if draw(ints(0, 5)) == 0:
+        # a fiber that polls with fiber_yield (never blocks) for something a signaller does after it got and released the mutex
+        sg = [f for f in fibers if any(o[0] in ("csignal", "cbcast") and o[1] == 1 for o in f)]
+        if sg:
+            sg[0].append(op("csetflag", 0))
+            fibers.append(small_ops(draw, 1) + [op("cpollflag", 0)])
     trylockers = draw(st.sampled_from([0, 0, 0, 1, 2]))
     for _ in range(trylockers):
         # somebody polls the condition's mutex with trylock while waits release and re-acquire it
@@ -683,6 +689,9 @@ def mixed_case(draw, tier, storm=False):
             elif k == "lifecycle":
                 f.append(op("lifecycle", draw(ints(0, 5))))
             else:
+                if draw(ints(0, 2)) == 0:
+                    # virtual time passes unread while the fiber is busy (expirations pile up), then it sleeps
+                    f.append(op("tick", draw(st.sampled_from([1, 3, 30, 250]))))
                 f.append(op("sleep", draw(ints(0, 2)), 0, draw(st.sampled_from([0, 1000, 3000, 3000, 7000]))))
     extra = []
     if not storm:
@@ -778,7 +787,11 @@ SCHED_TXT = ("each program runs under 32 (quick) / 160 (thorough) generated sche
              "targeted-delay PCT whose change points fall on accesses to the object under test, stalls of one or two kernel threads at one of their accesses; about a third of the "
              "schedules run with x86-TSO store buffers (not the descriptor, sleep and yield harnesses); distinct = distinct (program, decision list). ")
 
-SPECS["C03"] = rt_spec("C03", one_part("mutex", mutex_case), {"quick": 30000, "thorough": 150000},
+def c03_parts2(tier):
+    # the mutex is also released on behalf of a fiber that went to wait on a condition (deferred unlock, possibly by the kernel
+    # thread's idle fiber): a fifth of the budget runs the condition-variable programs, whose occupancy ghost watches that mutex
+    return [dict(one_part("mutex", mutex_case)(tier)[0], share=0.8), dict(one_part("cond", cond_case)(tier)[0], share=0.2)]
+SPECS["C03"] = rt_spec("C03", c03_parts2, {"quick": 30000, "thorough": 150000},
     "Hypothesis generates fiber programs over 1-2 mutexes (lock/trylock sections whose bodies read-modify-write a plain cell and may yield, plus yield/work) "
     "on 1-3(4) virtual kernel threads; " + SCHED_TXT + "Non-trivial = at least one lock call was contended (the locker was suspended in the waiter queue and "
     "resumed by an unlock); 'early_wake' in the histogram counts unlocks that found the locker between its decrement and its context switch.")
@@ -1108,16 +1121,18 @@ def hazard_case(draw, tier):
 
 
 def c02_parts(tier):
-    return [dict(ds_part("deque", deque_case)(tier), share=0.5),
-            {"name": "storm", "strategy": mixed_case(tier, storm=True), "nsched": T(tier, 32, 160), "args": ["--tso", 1], "share": 0.15},
+    return [dict(ds_part("deque", deque_case)(tier), share=0.45),
+            {"name": "storm", "strategy": mixed_case(tier, storm=True), "nsched": T(tier, 32, 160), "args": ["--tso", 1], "share": 0.1},
             {"name": "mixed", "strategy": mixed_case(tier), "nsched": T(tier, 32, 160), "args": ["--tso", 1], "share": 0.2},
+            # condition waits: the one place where a fiber is enqueued for a wake-up before its own context switch has happened
+            {"name": "cond", "strategy": cond_case(tier), "nsched": T(tier, 32, 160), "args": ["--tso", 1], "share": 0.1},
             # join/tryjoin/detach hand-shakes: the paths on which a waker polls with yield (and may be stolen) before it makes the peer runnable
             {"name": "join", "strategy": join_case(tier), "nsched": T(tier, 32, 160), "args": ["--tso", 1], "share": 0.15}]
 SPECS["C02"] = Spec("C02", "runner_rt", c02_parts, {"quick": 30000, "thorough": 150000},
     rule=("(a) one owner thread with generated push bursts (1..520, crossing the 2^8->2^9->2^10 growth) and pops against 1-3 thieves stealing a generated number of times; classes: "
           "single-element owner/thief races, growth under steal, mixed; " + DS_SCHED + "Oracle: every value handed out was pushed, at most once; after a final owner drain every pushed value "
           "was handed out exactly once; pop_bottom may say EMPTY only if all pushed values were taken by operations already begun; ABORT is a no-op; shadow heap on stale arrays. "
-          "(b) whole-runtime create/yield/lock storms, mixed programs (every wake-up path: mutex, semaphore, rwlock, condition, channel, signal, join, sleep) and join/tryjoin/detach programs on 2-3(4) kernel threads with the pending-wake ghost and the owner-only-push ghost: a fiber made runnable is switched in exactly once per wake-up and nothing is "
+          "(b) whole-runtime create/yield/lock storms, mixed programs (every wake-up path: mutex, semaphore, rwlock, condition, channel, signal, join, sleep), join/tryjoin/detach programs and condition-variable programs on 2-3(4) kernel threads with the pending-wake ghost and the owner-only-push ghost: a fiber made runnable is switched in exactly once per wake-up and nothing is "
           "left queued at quiescence. Non-trivial = (a) a successful steal together with an aborted CAS or a growth, (b) >= 2 kernel threads and at least one steal."),
     assumptions=DS_ASSUME + RT_ASSUME[2:], technique=DS_TECH + "; runtime part: pending-wake ghost over Hypothesis-generated fiber programs")
 # the MPMC FIFO and the hazard pointers are one mechanism seen from two sides: each of the two checks spends a fifth of its budget on the other's harness
@@ -1344,7 +1359,7 @@ EXTRA_RULE = {
     "C01": "The descriptor gadget really transfers bytes (op iowr); bursts of up to 40 000 runnable fibers in the storms; ghost: a fiber is only ever pushed onto the run queue of the "
            "kernel thread the pusher runs on, and only the owner writes 'bottom' of a run queue.",
     "C02": "Whole-runtime part also: bursts of up to 40 000 runnable fibers created at once, join/tryjoin/detach programs; ghosts: owner-only push, single-writer monitor on 'bottom' of every run queue.",
-    "C03": "Any number of waiters: a crowd class (40 .. 70 000 further fibers running into a held mutex).",
+    "C03": "Any number of waiters: a crowd class (40 .. 70 000 further fibers running into a held mutex). A fifth of the budget: condition-variable programs (deferred unlock of the user mutex, trylock pollers, a yield-poller that depends on the next owner).",
     "C04": "Both forms of join/tryjoin (with and without a place for the result); targets that return NULL, -1, -2, -3, 1, 2 instead of distinct tokens.",
     "C05": "Optionally 1-2 fibers that poll the condition's mutex with trylock; crowds of 40 .. 2100 further waiters (127/128/129, 256, 384, above 1024) released by signals, broadcasts and the controller.",
     "C06": "Semaphore values just below 2^8, 2^15, 2^16, 2^24, 2^30 that the posts then cross; crowds of 40 .. 70 000 fibers blocked on one semaphore; short-lived semaphores initialised, used and destroyed in between.",
